@@ -284,9 +284,11 @@ PLANS = {
     "C02": dict(e1=CONC_E1 + ["counter_comp", "ticket_comp"], inv=["Inv_C02", "Inv_TicketIsPosition"], bundles=["core", "large"]),
     "C03": dict(e1=CONC_E1 + ["ticket_owner"], inv=["Inv_C03"], bundles=["core", "large"], zst=True),
     "C04": dict(e1=CONC_E1 + ["counter_skipq"], inv=["Inv_C04"], bundles=["core", "large"]),
-    "C05": dict(e1=CONC_E1 + ["counter_skipq", "ticket_skip", "ticket_query", "ticket_revive"], inv=["Inv_C05", "Inv_NoWrap"], bundles=["core", "panic"], revive=True),
+    "C05": dict(e1=CONC_E1 + ["counter_skipq", "ticket_skip", "ticket_query", "ticket_revive"], inv=["Inv_C05", "Inv_NoWrap"], bundles=["core", "panic", "boundary"], revive=True,
+                flags=["EndSticks", "LenAfterEnd", "EndSticksB"]),
     "C06": dict(e1=["counter_skipq", "counter_3t", "counter_range", "ticket_skip", "ticket_3t", "ticket_owner"],
-                inv=["Inv_C06", "Inv_C01", "Inv_C02", "Inv_C04"], bundles=["core"],
+                inv=["Inv_C06", "Inv_C01", "Inv_C02", "Inv_C04"], bundles=["core", "boundary"],
+                flags=["SkipSticks", "LenAfterSkip", "SkipSticksB"],
                 extra_flags={"skip": ["NoDup", "Index", "Value", "ThreadOrder", "RealTime"]}),
     "C07": dict(e1=["ticket_pulls", "ticket_skip", "ticket_comp", "ticket_3t", "ticket_owner"],
                 inv=["Inv_C07_NoRace", "Inv_C07_Mutex"], bundles=["core", "wrap"], hb=True, revive=True,
